@@ -74,6 +74,17 @@ Example C11_nonvacuous :
   spec_tap (1#4) [(false, 1#64); (true, 1#8)] = SFired.
 Proof. split; [reflexivity|]. split; [apply hold_spec; reflexivity|]. repeat split; reflexivity. Qed.
 
+(* ---- the executable judgement of the correspondence check is sound for the model, and transfers: whenever the
+   implementation's output agrees with the model's on a case, the judgement accepts it (for EVERY case, not only the
+   ones that were run).  Statements about coq/Check; proofs in coq/Proofs/Judge*.v ---- *)
+From BEI Require Check.C11c Proofs.JudgeC11P.
+Theorem C11_judgement_sound : forall c steps, JudgeC11P.fresh_builtin c -> C11c.ok (C11c.ucond c steps, C11c.rcond (C11c.model_steps c steps)) = 0%Z.
+Proof. exact JudgeC11P.C11_sound_strong. Qed.
+
+Theorem C11_judgement_transfer : forall c steps o, JudgeC11P.fresh_builtin c -> C11c.agree (C11c.ucond c steps, o) = true -> C11c.ok (C11c.ucond c steps, o) = 0%Z.
+Proof. exact JudgeC11P.C11_transfer_strong. Qed.
+
+
 Print Assumptions C11_actuation.
 Print Assumptions C11_press.
 Print Assumptions C11_just_press.
@@ -89,3 +100,5 @@ Print Assumptions C11_tick_virtual.
 Print Assumptions C11_tick_zero_speed.
 Print Assumptions C11_tick_nonneg.
 Print Assumptions C11_timer_advances_by_tick.
+Print Assumptions C11_judgement_sound.
+Print Assumptions C11_judgement_transfer.
